@@ -1,1 +1,4 @@
 import VyxalModel.Proofs.C20
+import VyxalModel.Proofs.C03
+import VyxalModel.Proofs.C04
+import VyxalModel.Proofs.C05
